@@ -1,6 +1,6 @@
 """C15 — only blocks that satisfy the consensus rules are accepted.
 MC: BlockRules.tla enumerates a valid block for every consensus configuration of the code (PoA single key, PoAV2 key
-schedules) and every single-field mutation with the adversary's repair levels; TLC checks that acceptance implies the
+schedules), every single-field mutation and every pair of header-field mutations, with the repair levels; TLC checks that acceptance implies the
 listed rules and that every mutation is rejected or changes the block id.  B1: every edge of that graph is
 materialised by the harness on real blocks (real transactions, headers, secp256k1 keys, serde round trip) and judged
 by the real Verifier::verify_block_fields / verify_consensus and Block::try_from_executed; TLC compares the verdicts
@@ -16,8 +16,8 @@ def key(lines, names):
         if ln.startswith('{"ev":"New"'):
             k = json.loads(ln).get("k")
     o = json.loads(lines[-1])
-    return "%s :: kind=%s mutation=%s/%s/fix%s verdicts vf=%s vc=%s te=%s idc=%s" % (
-        ",".join(sorted(set(names))), k, o.get("f"), o.get("v"), o.get("fix"), o.get("vf"), o.get("vc"), o.get("te"),
+    return "%s :: kind=%s mutation=%s/%s+%s/%s/fix%s verdicts vf=%s vc=%s te=%s idc=%s" % (
+        ",".join(sorted(set(names))), k, o.get("f"), o.get("v"), o.get("f2", "-"), o.get("v2", "-"), o.get("fix"), o.get("vf"), o.get("vc"), o.get("te"),
         o.get("idc"))
 
 
@@ -26,7 +26,7 @@ def run(rep, tier, args):
         "hash functions and signatures are injective constructors in the model (crypto strength assumed); the harness "
         "uses real sha256 / secp256k1 values",
         "one valid block (height 5, three transactions, parent chain 0..4) per consensus configuration; single-field "
-        "mutations with repair levels 0..4 (4 = re-signed by the authority itself); BlockHeader V1 (fault-proving feature off)",
+        "mutations and all pairs of header-field mutations on distinct fields, with repair levels 0..4 (4 = re-signed by the authority itself); BlockHeader V1 (fault-proving feature off)",
         "blocks are judged after a serde round trip (as received from the wire, no cached id)",
     ]
     mc = rep.model_check("MC_BlockRules", "MC_BlockRules.cfg", workers=4, coverage=(tier == "thorough"))
@@ -39,7 +39,7 @@ def run(rep, tier, args):
         return
     er = vlib.require_clean(vlib.tlc("MC_BlockRules", "Edges_BlockRules.cfg", workers=1), "edges")
     edges = er.printed("EDGE")
-    if len(edges) < 500:
+    if len(edges) < 3000:
         raise vlib.ToolError("only %d edges emitted" % len(edges))
     walks = vlib.edge_walks(edges)
     wp = os.path.join(wd, "walks.ndjson")
@@ -52,15 +52,26 @@ def run(rep, tier, args):
     verdicts = {}
     for ln in open(tp):
         o = json.loads(ln)
-        if o["ev"] == "Mutate":
+        if o["ev"] in ("Mutate", "Mutate2"):
             k = "vf=%s vc=%s idc=%s" % (o["vf"], o["vc"], o["idc"])
             verdicts[k] = verdicts.get(k, 0) + 1
-            if o["f"] in ("txSwap", "sig", "time") and o["fix"] in (0, 3):
-                rep.add_sample({k2: o[k2] for k2 in ("f", "v", "fix", "vf", "vc", "te", "idc")})
+            if (o["f"] in ("txSwap", "sig") and o["fix"] in (0, 3)) or (o.get("f2") == "da" and o["f"] == "time"):
+                rep.add_sample({k2: o[k2] for k2 in ("f", "v", "f2", "v2", "fix", "vf", "vc", "te", "idc") if k2 in o})
     rep.extra["verdict_classes"] = verdicts
     for w in walks:
         rep.count_case(w)
-    rep.judge_trace("Trace_BlockRules", "Trace_BlockRules.cfg", tp, name="C15-b1", key_fn=key)
+    ws = vlib.split_trace(tp)
+    from concurrent.futures import ThreadPoolExecutor
+    files = []
+    for i in range(0, len(ws), 900):
+        f = os.path.join(wd, "b1-part%d.ndjson" % (i // 900))
+        with open(f, "w") as fh:
+            for w in ws[i:i + 900]:
+                fh.write("\n".join(w) + "\n")
+        files.append(f)
+    with ThreadPoolExecutor(max_workers=4) as ex:
+        list(ex.map(lambda i: rep.judge_trace("Trace_BlockRules", "Trace_BlockRules.cfg", files[i],
+                                              name="C15-b1-p%d" % i, key_fn=key), range(len(files))))
     selftest(rep, tp, wd)
 
 
